@@ -42,6 +42,19 @@ def check(case: dict) -> Verdict:
     entry = case["entry"]
     if ".noretry." in entry:
         case = {**case, "cfg": {**case["cfg"], "result_classifier": False}}
+    import warnings
+
+    ctx = warnings.catch_warnings()
+    ctx.__enter__()
+    try:
+        if case.get("warnings_as_errors"):
+            warnings.simplefilter("error")  # python -W error / pytest filterwarnings=error
+        return _check(case, entry, v, out)
+    finally:
+        ctx.__exit__(None, None, None)
+
+
+def _check(case, entry, v, out):
     base = run_case(case, entry)
     want = observable(case, base)
     nfaulted = 0
@@ -88,6 +101,7 @@ def case_st(draw):
         pl["before"] = "call"
     case["placement"] = pl
     case["rot"] = draw(st.sampled_from(list(range(len(FAULTS)))))
+    case["warnings_as_errors"] = gen.chance(draw, 0.3, "c15-werror")
     if gen.chance(draw, 0.35, "c15-breaker"):
         spec = draw(gen.breaker_spec())
         if spec.get("trip_on") != [] and gen.chance(draw, 0.5, "c15-pre"):
@@ -111,7 +125,8 @@ PROP = Property(
         "(sync / async / awaitable) are invoked; faults are then enumerated: hook h raises at invocation j for EVERY j, and at "
         "every invocation ('always'), with two (five for 'always') exception types per site rotating through 26 Exception "
         "subclasses (ValueError ... MemoryError, RecursionError, ExceptionGroup, StopAsyncIteration, warnings, library errors); sync and "
-        "async, with and without breaker events (incl. the half-open admission event), with and without timeline capture. "
+        "async, with and without breaker events (incl. the half-open admission event), with and without timeline capture; 30 % of the "
+        "cases run with warnings turned into errors (python -W error). "
         "Oracle: the complete observable trace (operation invocations, sleeps, strategy calls, the other sink, timeline, "
         "breaker and budget calls, delivered result) equals the silent-hook trace. Non-trivial = a case with >= 3 hook "
         "invocations and at least one faulted run. evaluations counts runs."
